@@ -100,6 +100,13 @@ class Run(object):
         if p is not None:
             self._fail("C03" if op.startswith("ortho") else self.prop, op, "consistent", {"what": what, "problem": p}, rec)
 
+    def _numerically_zero(self):
+        """The tensor is zero up to rounding (norm below 1e-12 of the product of its core norms, e.g. after a truncation on
+        a non-orthonormalised side wiped out its value).  A *relative* threshold then compares rounding noise with
+        rounding noise (s/s[0] is 0/0 in the limit): the documentation does not define the outcome (on the real code
+        rank-0 bonds and an IndexError can result), so threshold-dependent calls are not issued on such an object."""
+        return not (self.snap.norm > 1e-12 * self.snap.scale)
+
     def _is_vector(self):
         return all(c == 1 for c in self.t.col_dims)
 
@@ -155,7 +162,7 @@ class Run(object):
         if isinstance(mr, list) and len(mr) != d + 1:
             return "skip"
         truncating = (thr != 0) or (mr is not None)
-        if thr != 0 and self.snap.norm == 0.0:
+        if thr != 0 and self._numerically_zero():
             return "skip"  # s/s[0] is 0/0: not defined by the documentation
         before = self.snap
         cores_before = [np.array(c, copy=True) for c in self.t.cores]
@@ -312,7 +319,7 @@ class Run(object):
         d = self.t.order
         if before.meta[3][0] != 1 or before.meta[3][-1] != 1:
             return "skip"
-        if thr != 0 and before.norm == 0.0:
+        if thr != 0 and self._numerically_zero():
             return "skip"
         if op == "tt_from_array":
             x = M.as_operator(before.dense, d).copy()
@@ -375,7 +382,7 @@ class Run(object):
         mr = a.get("max_rank")
         rel = a.get("rel", True)
         A = M.unfolding(self.snap.dense, k).copy()
-        if thr != 0 and self.snap.norm == 0.0:
+        if thr != 0 and self._numerically_zero():
             return "skip"
         arg = np.asfortranarray(A.copy()) if a.get("order") == "F" else A.copy()
         out, exc = self._call(rec, lambda: self.utl.truncated_svd(arg, threshold=thr, max_rank=_mr(mr), rel_truncation=rel))
@@ -452,7 +459,7 @@ class Run(object):
         thr = a.get("threshold", 0)
         mr = a.get("max_rank")
         ow = bool(a.get("overwrite", False))
-        if thr != 0 and (self.snap.norm == 0.0 or not self._spectra_ok(thr)):
+        if thr != 0 and (self._numerically_zero() or not self._spectra_ok(thr)):
             self.probes["svd_threshold_ambiguous_skipped"] += 1
             return "skip"
         before = self.snap
@@ -479,6 +486,8 @@ class Run(object):
         s = np.asarray(s)
         r = len(s)
         A = M.unfolding(before.dense, idx)
+        if r == 0 or u.ranks[-1] == 0 or v.ranks[0] == 0:
+            self._fail("C05", "svd", "rank-zero", {"len_s": r, "u_ranks": u.ranks, "v_ranks": v.ranks, "norm": before.norm}, rec)
         U = M.dense(u).reshape(-1, u.ranks[-1])
         V = M.dense(v).reshape(v.ranks[0], -1)
         if u.ranks[-1] != r or v.ranks[0] != r or U.shape[0] != A.shape[0] or V.shape[1] != A.shape[1]:
@@ -517,7 +526,7 @@ class Run(object):
         thr = a.get("threshold", 0)
         ow = bool(a.get("overwrite", False))
         before = self.snap
-        if before.norm == 0.0 or before.norm < 1e-6 * before.scale:
+        if self._numerically_zero() or before.norm < 1e-6 * before.scale:
             return "skip"   # (nearly) zero by cancellation: the pseudoinverse amplifies rounding noise without bound
         A = M.unfolding(before.dense, idx)
         sv = env.REAL.np_svd(A, compute_uv=False)
